@@ -317,6 +317,12 @@ class StorageReplayer:
             want = 'ok'           # not distinguishable from the call's return value; the history comparison decides
         if action == 'Pack' and got == 'POSKeyError':
             got = 'KeyError'
+        if action == 'Pack':
+            # a gc=False pack that meets an undo record pointing across the pack time refuses with PackError or with
+            # an AssertionError, depending on which check of copyOne / PackCopier it reaches first; both are the same
+            # allowed exit (the history comparison that follows requires the database to be unchanged)
+            got = 'pack-refused' if got in ('PackError', 'AssertionError') else got
+            want = 'pack-refused' if want in ('PackError', 'AssertionError') else want
         if got != want:
             out.append('%s%r: spec outcome %s, implementation %s' % (action, tuple(norm(args)), want, got))
         else:
@@ -570,11 +576,14 @@ def _queries(rp, a, step, sparse, rng, ltid):
             # then the most recently committed object (the pooled read buffer is refilled next to the
             # voted bytes); otherwise an occasional single read (see DESIGN 6/C05)
             h = norm(step['state']['hist'])
-            if a == 'Vote' and h and h[0]['recs'] and h[-1]['recs']:
-                rp.poke_oid(h[0]['recs'][0]['oid'])
-                rp.poke_oid(h[-1]['recs'][-1]['oid'])
-            elif rng.random() < 0.2:
-                rp.poke(rng)
+            try:
+                if a == 'Vote' and h and h[0]['recs'] and h[-1]['recs']:
+                    rp.poke_oid(h[0]['recs'][0]['oid'])
+                    rp.poke_oid(h[-1]['recs'][-1]['oid'])
+                elif rng.random() < 0.2:
+                    rp.poke(rng)
+            except Exception as ex:          # a read of committed data that fails is an outcome, not a crash
+                return ['a load of a committed object raised %s (%s) after %s' % (type(ex).__name__, str(ex)[:100], a)]
             return []
         if sparse and a == 'Finish':
             h = norm(step['state']['hist'])
